@@ -20,7 +20,7 @@ export function genTplItem(rng, d) {
     case 0: return A("str");
     case 1: return A("num");
     case 2: return A("bool");
-    case 3: case 4: return [A("lit"), rng.pick(["a", "b", "-", "x.y", "(", "$", ""])];
+    case 3: case 4: return [A("lit"), rng.pick(["a", "b", "-", "x.y", "(", "$", "", "/", "a/b"])];
     default: return [A("oneof"), ...Array.from({ length: 1 + rng.below(3) }, () => genTplItem(rng, d - 1))];
   }
 }
